@@ -34,6 +34,7 @@ QUICK = [  # kind, profile, cases
     ("rd-stat", {"nfiles": 4}, 1),
     ("rd-unpack", {"nfiles": 5, "xattrs": True, "hardlinks": True}, 3),
 ]
+PAIR_FRACTION = 0.12              # share of the cleanly failing single faults that get a second fault in their error path
 CAP_QUICK, CAP_THOROUGH = 70, 400     # positions per (call, class); above: first 10, last 10, seeded sample
 READ_LIKE = ("read", "pread")
 WRITE_LIKE = ("write", "pwrite")
@@ -247,6 +248,27 @@ def fault_work(a):
                                         "site": site_of(o, binary, label), "stderr": o.stderr[-400:].decode(errors="replace"),
                                         "verdict": o.verdict,
                                         "case": {"spec": casespec, "tool": case.tool, "argv": case.argv}})
+                    continue
+                # second fault inside the error path of the first: the run failed cleanly, so its LAST allocations belong to the
+                # error handling / clean-up; let the last d of them fail too (memory stays short once it is short)
+                if o.rc != 0 and not label.startswith("alloc") and rng(casespec["seed"], "pair", label).random() < PAIR_FRACTION:
+                    total = o.trace.counts().get(("alloc", "*"), 0)
+                    for d in (1, 4):
+                        if total - d < 1:
+                            continue
+                        plan2 = plan + "alloc_fail_from %d\n" % (total - d + 1)
+                        label2 = "%s+oom-for-the-last-%d-allocations" % (label, d)
+                        o2 = pipelines.run_case(bdir, case, cd, plan2, "asan", timeout=90, cpu=30)
+                        res["runs"] += 1
+                        res["pairs"] = res.get("pairs", 0) + 1
+                        c2, d2 = classify(case, cd, ref, o2, label2, bdir)
+                        if c2 != "not-fired":
+                            res["fired"] += 1
+                        if c2 in (None, "not-fired", "accepted-prefix"):
+                            continue
+                        res["viol"].append({"label": label2, "plan": plan2, "clause": c2, "detail": d2,
+                                            "site": "pair:" + site_of(o2, binary, label2), "stderr": o2.stderr[-400:].decode(errors="replace"),
+                                            "verdict": o2.verdict, "case": {"spec": casespec, "tool": case.tool, "argv": case.argv}})
     except Exception as e:
         res["err"] = "%s: %s" % (type(e).__name__, e)
     return res
@@ -376,7 +398,8 @@ def finish(rep, bdir, results, tasks, runs, fired, outcomes, samples, total_posi
     cov = {
         "evaluations": runs + ncases + n_pre,
         "distinct_nontrivial": fired,
-        "rule": "one evaluation = one tool run with exactly one injected failure (or EINTR followed by a failure); every run is a "
+        "rule": "one evaluation = one tool run with exactly one injected failure (or EINTR followed by a failure; for a sample of the cleanly "
+                "failing ones additionally: the last 1 / last 4 allocations of that failing run fail as well); every run is a "
                 "distinct (pipeline, call, fd class, ordinal, kind); non-trivial = the fault actually fired (trace F line)",
         "samples": samples,
         "exhaustive": smp == 0,
@@ -386,6 +409,7 @@ def finish(rep, bdir, results, tasks, runs, fired, outcomes, samples, total_posi
         "outcomes": outcomes,
         "pipelines": ncases,
         "preexisting_output_runs": n_pre,
+        "runs_with_a_second_fault_in_the_error_path": sum(r.get("pairs", 0) for r in results),
         "sanitizer": "AddressSanitizer + UBSan(bounds,object-size,null,pointer-overflow,vla-bound,return,unreachable)",
         "components_real": ["gensquashfs, tar2sqfs, sqfs2tar, rdsquashfs from the working tree", "codec libraries", "tmpfs"],
         "components_simulated": ["outcome of every intercepted libc call", "project allocator (k-th allocation fails)",
